@@ -25,6 +25,7 @@
 #include "main.h"               /* bs100k */
 #include "encode.h"             /* encode() */
 #include "process.h"            /* struct process */
+#include "verif.h"
 
 /* transmit threshold */
 #define TRANSM_THRESH 2
@@ -62,6 +63,17 @@ static uint32_t combined_crc;
 static bool collect_token = true;
 static struct work_blk *unfinished_work;
 
+#ifdef KJN_LBZIP2_VERIF
+/* Scalar scheduler state logged with every event (post-state). */
+#define VST "\"wu\":%u,\"os\":%u,\"cq\":%u,\"tq\":%u,\"rq\":%u,\"ct\":%d,"     \
+  "\"uf\":%d,\"omaj\":%lu,\"omin\":%lu,\"eof\":%d,\"lenc\":%d,\"lout\":%d"
+#define VSA work_units, out_slots, size(coll_q), size(trans_q),         \
+    size(reord_q), (int)collect_token, unfinished_work != NULL,         \
+    (unsigned long)order.major, (unsigned long)order.minor, (int)eof,   \
+    verif_live(VERIF_C_ENC), verif_live(VERIF_C_OUTBUF)
+#define VP(p) (unsigned long)(p).major, (unsigned long)(p).minor
+#endif
+
 
 static bool
 can_collect(void)
@@ -78,6 +90,8 @@ do_collect(void)
 
   iblk = dequeue(coll_q);
   --work_units;
+  VERIF_EV("\"e\":\"CollectBegin\",\"maj\":%lu,\"min\":%lu,\"left\":%lu," VST,
+           VP(iblk->pos), (unsigned long)iblk->left, VSA);
   sched_unlock();
 
   wblk = XMALLOC(struct work_blk);
@@ -87,6 +101,7 @@ do_collect(void)
 
   /* Allocate an encoder with given block size and default parameters. */
   wblk->enc = xmalloc(encoder_alloc_size(bs100k * 100000u));
+  VERIF_ALLOC(VERIF_C_ENC);
   encoder_init(wblk->enc, bs100k * 100000u, CLUSTER_FACTOR);
 
   /* Collect as much data as we can. */
@@ -100,6 +115,8 @@ do_collect(void)
     ++iblk->pos.minor;
     sched_lock();
     enqueue(coll_q, iblk);
+    VERIF_EV("\"e\":\"CollectRequeue\",\"maj\":%lu,\"min\":%lu,\"left\":%lu,"
+             VST, VP(iblk->pos), (unsigned long)iblk->left, VSA);
     sched_unlock();
   }
   else {
@@ -110,10 +127,16 @@ do_collect(void)
   }
 
   /* Do the hard work. */
+  VERIF_DELAY("encode", wblk->pos.major);
   wblk->size = encode(wblk->enc, &wblk->crc);
 
   sched_lock();
   enqueue(trans_q, wblk);
+  VERIF_EV("\"e\":\"CollectEnd\",\"maj\":%lu,\"min\":%lu,\"nmaj\":%lu,"
+           "\"nmin\":%lu,\"weight\":%lu,\"size\":%lu,\"crch\":%u,\"crcl\":%u," VST,
+           VP(wblk->pos), VP(wblk->next), (unsigned long)wblk->weight,
+           (unsigned long)wblk->size, (unsigned)(wblk->crc >> 16),
+           (unsigned)(wblk->crc & 0xFFFF), VSA);
 }
 
 
@@ -143,6 +166,15 @@ do_collect_seq(void)
     iblk = dequeue(coll_q);
 
   collect_token = false;
+#ifdef KJN_LBZIP2_VERIF
+  if (iblk != NULL)
+    VERIF_EV("\"e\":\"SeqBegin\",\"fresh\":%d,\"has\":1,\"maj\":%lu,"
+             "\"min\":%lu,\"left\":%lu," VST, wblk == NULL, VP(iblk->pos),
+             (unsigned long)iblk->left, VSA);
+  else
+    VERIF_EV("\"e\":\"SeqBegin\",\"fresh\":%d,\"has\":0,\"maj\":0,\"min\":0,"
+             "\"left\":0," VST, wblk == NULL, VSA);
+#endif
   sched_unlock();
 
   /* Allocate an encoder with given block size and default parameters. */
@@ -152,6 +184,7 @@ do_collect_seq(void)
     wblk->pos = iblk->pos;
     wblk->next = iblk->pos;
     wblk->enc = xmalloc(encoder_alloc_size(bs100k * 100000u));
+    VERIF_ALLOC(VERIF_C_ENC);
     encoder_init(wblk->enc, bs100k * 100000u, CLUSTER_FACTOR);
     wblk->weight = 0;
   }
@@ -169,6 +202,8 @@ do_collect_seq(void)
       ++iblk->pos.minor;
       sched_lock();
       enqueue(coll_q, iblk);
+      VERIF_EV("\"e\":\"SeqRequeue\",\"maj\":%lu,\"min\":%lu,\"left\":%lu," VST,
+               VP(iblk->pos), (unsigned long)iblk->left, VSA);
       sched_unlock();
     }
     else {
@@ -183,18 +218,30 @@ do_collect_seq(void)
     sched_lock();
     collect_token = true;
     unfinished_work = wblk;
+    VERIF_EV("\"e\":\"SeqPark\",\"maj\":%lu,\"min\":%lu,\"nmaj\":%lu,"
+             "\"nmin\":%lu,\"weight\":%lu," VST, VP(wblk->pos), VP(wblk->next),
+             (unsigned long)wblk->weight, VSA);
     return;
   }
 
   sched_lock();
   collect_token = true;
+  VERIF_EV("\"e\":\"SeqToken\",\"maj\":%lu,\"min\":%lu,\"nmaj\":%lu,"
+           "\"nmin\":%lu,\"weight\":%lu," VST, VP(wblk->pos), VP(wblk->next),
+           (unsigned long)wblk->weight, VSA);
   sched_unlock();
 
   /* Do the hard work. */
+  VERIF_DELAY("encode", wblk->pos.major);
   wblk->size = encode(wblk->enc, &wblk->crc);
 
   sched_lock();
   enqueue(trans_q, wblk);
+  VERIF_EV("\"e\":\"SeqEnd\",\"maj\":%lu,\"min\":%lu,\"nmaj\":%lu,"
+           "\"nmin\":%lu,\"weight\":%lu,\"size\":%lu,\"crch\":%u,\"crcl\":%u," VST,
+           VP(wblk->pos), VP(wblk->next), (unsigned long)wblk->weight,
+           (unsigned long)wblk->size, (unsigned)(wblk->crc >> 16),
+           (unsigned)(wblk->crc & 0xFFFF), VSA);
 }
 
 
@@ -214,17 +261,24 @@ do_transmit(void)
 
   wblk = dequeue(trans_q);
   --out_slots;
+  VERIF_EV("\"e\":\"TransmitBegin\",\"maj\":%lu,\"min\":%lu," VST,
+           VP(wblk->pos), VSA);
   sched_unlock();
 
   /* Allocate the output buffer and transmit the block into it. */
   wblk->buffer = XNMALLOC((wblk->size + 3) / 4, uint32_t);
+  VERIF_ALLOC(VERIF_C_OUTBUF);
 
+  VERIF_DELAY("transmit", wblk->pos.major);
   transmit(wblk->enc, wblk->buffer);
   free(wblk->enc);
+  VERIF_FREE(VERIF_C_ENC);
 
   sched_lock();
   ++work_units;
   enqueue(reord_q, wblk);
+  VERIF_EV("\"e\":\"TransmitEnd\",\"maj\":%lu,\"min\":%lu," VST,
+           VP(wblk->pos), VSA);
 }
 
 
@@ -245,6 +299,11 @@ do_reorder(void)
 
   sink_write_buffer(wblk->buffer, wblk->size, wblk->weight);
   combined_crc = combine_crc(combined_crc, wblk->crc);
+  VERIF_EV("\"e\":\"Reorder\",\"maj\":%lu,\"min\":%lu,\"nmaj\":%lu,"
+           "\"nmin\":%lu,\"weight\":%lu,\"size\":%lu,\"crch\":%u,\"crcl\":%u," VST,
+           VP(wblk->pos), VP(wblk->next), (unsigned long)wblk->weight,
+           (unsigned long)wblk->size, (unsigned)(wblk->crc >> 16),
+           (unsigned)(wblk->crc & 0xFFFF), VSA);
 
   free(wblk);
 }
@@ -272,6 +331,8 @@ on_input_avail(void *buffer, size_t size)
 
   sched_lock();
   enqueue(coll_q, iblk);
+  VERIF_EV("\"e\":\"Avail\",\"maj\":%lu,\"min\":%lu,\"left\":%lu," VST,
+           VP(iblk->pos), (unsigned long)iblk->left, VSA);
   sched_unlock();
 }
 
@@ -280,9 +341,11 @@ static void
 on_write_complete(void *buffer)
 {
   free(buffer);
+  VERIF_FREE(VERIF_C_OUTBUF);
 
   sched_lock();
   ++out_slots;
+  VERIF_EV("\"e\":\"Written\"," VST, VSA);
   sched_unlock();
 }
 
@@ -334,6 +397,12 @@ init(void)
 
   assert(1 <= bs100k && bs100k <= 9);
   combined_crc = 0;
+  VERIF_EV("\"e\":\"Init\",\"W\":%u,\"tin\":%u,\"tout\":%u,\"ultra\":%d,"
+           "\"thresh\":%d,\"cap\":%lu,\"tasks\":\"%s,%s,%s,%s\"," VST, num_worker,
+           in_slots, out_slots, (int)ultra, TRANSM_THRESH,
+           (unsigned long)(bs100k * 100000u), compression.tasks[0].name,
+           compression.tasks[1].name, compression.tasks[2].name,
+           compression.tasks[3].name, VSA);
 
   write_header();
 }
@@ -343,6 +412,8 @@ static void
 uninit(void)
 {
   write_trailer();
+  VERIF_EV("\"e\":\"Fini\",\"crch\":%u,\"crcl\":%u," VST,
+           (unsigned)(combined_crc >> 16), (unsigned)(combined_crc & 0xFFFF), VSA);
 
   pqueue_uninit(coll_q);
   pqueue_uninit(trans_q);
